@@ -42,6 +42,9 @@ pub const CURATED: &[&str] = &[
     "r3k2r/pppq1ppp/2npbn2/2b1p3/2B1P3/2NPBN2/PPPQ1PPP/R3K2R b KQkq - 6 8",
     "1n2k3/P7/8/8/8/8/7p/4K1N1 w - - 0 1",
     "1n2k3/P7/8/8/8/8/7p/4K1N1 b - - 0 1",
+    // after any black move White has no move at all, not even a pseudo-legal one (walled-in stalemate)
+    "7k/8/8/8/1p6/pPp5/PRP5/KB6 b - - 0 1",
+    "kb6/prp5/PpP5/1P6/8/8/8/7K w - - 0 1",
 ];
 
 /// The engine's own bench positions (data, not code): realistic middlegames and endings.
